@@ -63,10 +63,319 @@ def Wf (v : VecS) : Prop := v.len ≤ v.buf.length
 
 end VecS
 
-/-- `BinaryTapeParser::parse_slice_into_tape(data, &mut tape)` on a tape that was used before:
-the vector is cleared (the raw write of `Equal` at slot 0 lies beyond the new length), the loop
-starts on its view. -/
+/-! ## the parser over the vector with its capacity contents
+
+The same functions as in `Model/BinTape.lean`, written against the vector primitives: bounds-checked
+accesses (`get`, `get_mut`, `pop`, `is_empty`, `len`, the slice `get(parent_ind + 1..)`) go through
+`get?` / `pop?` / `len` / `view`; `get_unchecked(_mut)` goes through `getUnchecked` / `setAtU` and
+sees whatever the allocation holds. -/
+
+/-- `*get_unchecked_mut(i) = x` -/
+def VecS.setAtU (v : VecS) (i : Nat) (x : BTok) : VecS := ⟨v.buf.set i x, v.len⟩
+
+def VecS.pushAll (v : VecS) : Tape → VecS
+  | [] => v
+  | x :: xs => (v.push x).pushAll xs
+
+structure StV where
+  vec : VecS
+  parent : Nat
+  state : PState
+  data : Bytes
+  deriving Repr
+
+def StV.toSt (s : StV) : St := ⟨s.vec.view, s.parent, s.state, s.data⟩
+
+/-- a `parse_*` helper (tape.rs:166-233): read the payload, `alloc().init(token)` -/
+def parseV (P : Tape → Bytes → Except Err (Tape × Bytes)) (v : VecS) (d : Bytes) : Except Err (VecS × Bytes) :=
+  match P [] d with
+  | .error e => .error e
+  | .ok (t, r) => .ok (v.pushAll t, r)
+
+def scalarArmV (r : Except Err (VecS × Bytes)) (parent : Nat) (state : PState) : Except Err StV :=
+  match r with
+  | .error e => .error e
+  | .ok (v', d') =>
+    match nextState state with
+    | none => .error .ub
+    | some s' => .ok ⟨v', parent, s', d'⟩
+
+def closeToV (v : VecS) (grand : Nat) : Except Err (VecS × Nat × PState) :=
+  match v.getUnchecked grand with
+  | some (BTok.array _) => .ok (v, grand, .arrayValue)
+  | some _ => .ok (v, grand, .key)
+  | none => .error .ub
+
+def pushEndV (v : VecS) (parent : Nat) : Except Err (VecS × Nat × PState) :=
+  match v.get? parent with
+  | some (.array grand) => closeToV ((v.setAt parent (.array v.len)).push (.end_ parent)) grand
+  | some (.object grand) => closeToV ((v.setAt parent (.object v.len)).push (.end_ parent)) grand
+  | _ => .error .syntax
+
+def setParentToObjectV (v : VecS) (parent : Nat) : Except Err VecS :=
+  match v.getUnchecked parent with
+  | some (.array e) => .ok (v.setAtU parent (.object e))
+  | _ => .error .ub
+
+def mixedInsert2V (v : VecS) : Except Err VecS :=
+  match v.pop? with
+  | none => .error .panic
+  | some (v1, stashed1) =>
+    match v1.pop? with
+    | none => .error .panic
+    | some (v2, stashed2) => .ok (((v2.push .mixed).push stashed2).push stashed1)
+
+def mixedInsert1V (v : VecS) : Except Err VecS :=
+  match v.pop? with
+  | none => .error .panic
+  | some (v1, stashed1) => .ok ((v1.push .mixed).push stashed1)
+
+def i32LoopV : Nat → VecS → Nat → Bytes → Except Err StV
+  | 0, _, _, _ => .error .fuel
+  | fuel + 1, v, parent, nd =>
+    match readId nd with
+    | none => .error .eof
+    | some (x, nd2) =>
+      if x = L.i32 then
+        match parseV parseI32 v nd2 with
+        | .error e => .error e
+        | .ok (v', nd') => i32LoopV fuel v' parent nd'
+      else if x = L.close then
+        match pushEndV v parent with
+        | .error e => .error e
+        | .ok (v', parent', state') => .ok ⟨v', parent', state', nd2⟩
+      else .ok ⟨v, parent, .arrayValue, nd⟩
+
+def equalArmV (v : VecS) (parent : Nat) (state : PState) (d : Bytes) : Except Err StV :=
+  match state with
+  | .keyValueSeparator => .ok ⟨v, parent, .objectValue, d⟩
+  | .openSecond =>
+    (match setParentToObjectV v parent with
+      | .error e => .error e
+      | .ok v' => .ok ⟨v', parent, .objectValue, d⟩)
+  | .arrayValueMixed => .ok ⟨v.push .equal, parent, .arrayValueMixed, d⟩
+  | .arrayValue =>
+    (match v.pop? with
+      | none => .error .ub
+      | some (v1, last) =>
+        match last with
+        | .array _ => .error .syntax
+        | .end_ _ => .error .syntax
+        | _ =>
+          if onlyEmpties v1.view parent then
+            match setParentToObjectV v1 parent with
+            | .error e => .error e
+            | .ok v2 => .ok ⟨(v2.rawWrite (parent + 1) last).setLen (parent + 2), parent, .objectValue, d⟩
+          else
+            .ok ⟨((((v1.rawWrite v1.len .mixed).rawWrite (v1.len + 1) last).rawWrite (v1.len + 2) .equal).setLen (v1.len + 3)),
+              parent, .arrayValueMixed, d⟩)
+  | _ => .error .syntax
+
+def openArmV (v : VecS) (parent : Nat) (state : PState) (d : Bytes) : Except Err StV :=
+  if state ≠ .key then
+    .ok ⟨v.push (.array parent), v.len, .openFirst, d⟩
+  else if v.len = 0 then .error .syntax
+  else
+    match readId d with
+    | none => .error .eof
+    | some (x, nd) => if x = L.close then .ok ⟨v, parent, state, nd⟩ else .error .syntax
+
+def closeArmV (v : VecS) (parent : Nat) (state : PState) (d : Bytes) : Except Err StV :=
+  let pre : Except Err VecS :=
+    match state with
+    | .keyValueSeparator => mixedInsert1V v
+    | .objectValue => .error .syntax
+    | _ => .ok v
+  match pre with
+  | .error e => .error e
+  | .ok v1 =>
+    match pushEndV v1 parent with
+    | .error e => .error e
+    | .ok (v', parent', state') => .ok ⟨v', parent', state', d⟩
+
+def tokenArmV (opt : Bool) (fuel : Nat) (v : VecS) (parent : Nat) (state : PState) (d : Bytes)
+    (tok : Nat) : Except Err StV :=
+  if tok = L.u32 then scalarArmV (parseV parseU32 v d) parent state
+  else if tok = L.u64 then scalarArmV (parseV parseU64 v d) parent state
+  else if tok = L.i32 then
+    match scalarArmV (parseV parseI32 v d) parent state with
+    | .error e => .error e
+    | .ok st =>
+      if opt ∧ st.state = .arrayValue then i32LoopV fuel st.vec st.parent st.data
+      else .ok st
+  else if tok = L.bool then scalarArmV (parseV parseBool v d) parent state
+  else if tok = L.quoted then scalarArmV (parseV parseQuoted v d) parent state
+  else if tok = L.unquoted then scalarArmV (parseV parseUnquoted v d) parent state
+  else if tok = L.f32 then scalarArmV (parseV parseF32 v d) parent state
+  else if tok = L.f64 then scalarArmV (parseV parseF64 v d) parent state
+  else if tok = L.open_ then openArmV v parent state d
+  else if tok = L.close then closeArmV v parent state d
+  else if tok = L.equal then equalArmV v parent state d
+  else if tok = L.rgb ∧ state = .objectValue then
+    match parseV parseRgb v d with
+    | .error e => .error e
+    | .ok (v', d') => .ok ⟨v', parent, .key, d'⟩
+  else if tok = L.i64 then scalarArmV (parseV parseI64 v d) parent state
+  else scalarArmV (.ok (v.push (.token tok), d)) parent state
+
+def dispatchV (opt : Bool) (fuel : Nat) (v : VecS) (parent : Nat) (state : PState) (d : Bytes)
+    (tok : Nat) : Except Err StV :=
+  if state = .objectToArray then
+    match mixedInsert2V v with
+    | .error e => .error e
+    | .ok v' => tokenArmV opt fuel v' parent .arrayValueMixed d tok
+  else tokenArmV opt fuel v parent state d tok
+
+inductive FPV where
+  | cont (st : StV)
+  | fall (v : VecS) (parent : Nat) (state : PState) (d : Bytes) (tok : Nat)
+  | err (e : Err)
+
+@[inline] def FPV.withId (d : Bytes) (k : Nat → Bytes → FPV) : FPV :=
+  match readId d with
+  | none => .err .eof
+  | some (t, rest) => k t rest
+
+@[inline] def FPV.withParse (r : Except Err (VecS × Bytes)) (k : VecS → Bytes → FPV) : FPV :=
+  match r with
+  | .error e => .err e
+  | .ok (v', d') => k v' d'
+
+def arrLoopV (k : EKind) : Nat → VecS → Nat → Bytes → FPV
+  | 0, _, _, _ => .err .fuel
+  | fuel + 1, v, parent, nd =>
+    match readId nd with
+    | none => .err .eof
+    | some (x, nd2) =>
+      if x = k.lex then
+        match parseV (parseElem k) v nd2 with
+        | .error e => .err e
+        | .ok (v', nd') => arrLoopV k fuel v' parent nd'
+      else if x = L.close then
+        match v.getUnchecked parent with
+        | some (.array grand) =>
+          .cont ⟨(v.setAtU parent (.array v.len)).push (.end_ parent), grand, .key, nd2⟩
+        | _ => .err .ub
+      else .fall v parent .arrayValue nd2 x
+
+def arrayFieldV (k : EKind) (fuel : Nat) (v : VecS) (parent : Nat) (d4 : Bytes) : FPV :=
+  FPV.withParse (parseV (parseElem k) v d4) fun v1 d4' =>
+  FPV.withId d4' fun t5 d5 =>
+  if t5 = k.lex then
+    FPV.withParse (parseV (parseElem k) v1 d5) fun v2 nd => arrLoopV k fuel v2 parent nd
+  else .fall v1 parent .openSecond d5 t5
+
+def tokenKeyFastV (fuel : Nat) (v : VecS) (parent : Nat) (d : Bytes) : FPV :=
+  FPV.withId d fun t2 d2 =>
+  if t2 = L.equal then
+    FPV.withId d2 fun t3 d3 =>
+    if t3 = L.i32 then
+      FPV.withParse (parseV parseI32 v d3) fun v' data => .cont ⟨v', parent, .key, data⟩
+    else if t3 = L.open_ then
+      let ind := v.len
+      let v1 := v.push (.array parent)
+      FPV.withId d3 fun t4 d4 =>
+      if t4 = L.i32 then arrayFieldV .i32 fuel v1 ind d4
+      else if t4 = L.quoted then arrayFieldV .quoted fuel v1 ind d4
+      else if t4 = L.f32 then arrayFieldV .f32 fuel v1 ind d4
+      else if isPlainId t4 ∨ t4 = 0xb then
+        let v2 := v1.push (.token t4)
+        FPV.withId d4 fun t5 d5 =>
+        if t5 = L.equal then
+          match setParentToObjectV v2 ind with
+          | .error e => .err e
+          | .ok v3 => FPV.withId d5 fun t6 d6 => .fall v3 ind .objectValue d6 t6
+        else .fall v2 ind .openSecond d5 t5
+      else .fall v1 ind .openFirst d4 t4
+    else if t3 = L.quoted then
+      FPV.withParse (parseV parseQuoted v d3) fun v' data => .cont ⟨v', parent, .key, data⟩
+    else if t3 = L.f32 then
+      FPV.withParse (parseV parseF32 v d3) fun v' data => .cont ⟨v', parent, .key, data⟩
+    else .fall v parent .objectValue d3 t3
+  else .fall v parent .keyValueSeparator d2 t2
+
+def quotedKeyFastV (v : VecS) (parent : Nat) (d : Bytes) : FPV :=
+  FPV.withParse (parseV parseQuoted v d) fun v1 d2 =>
+  FPV.withId d2 fun t2 d3 =>
+  if t2 = L.equal then
+    FPV.withId d3 fun t3 d4 =>
+    if t3 = L.open_ then
+      let ind := v1.len
+      let v2 := v1.push (.array parent)
+      FPV.withId d4 fun t e1 =>
+      if isPlainId t then
+        let v3 := v2.push (.token t)
+        FPV.withId e1 fun t' e2 =>
+        if t' = L.equal then
+          match setParentToObjectV v3 ind with
+          | .error e => .err e
+          | .ok v4 =>
+            FPV.withId e2 fun t'' e3 =>
+            if t'' = L.bool then
+              FPV.withParse (parseV parseBool v4 e3) fun v5 data => .cont ⟨v5, ind, .key, data⟩
+            else if t'' = L.quoted then
+              FPV.withParse (parseV parseQuoted v4 e3) fun v5 data => .cont ⟨v5, ind, .key, data⟩
+            else .fall v4 ind .objectValue e3 t''
+        else .fall v3 ind .openSecond e2 t'
+      else .fall v2 ind .openFirst e1 t
+    else .fall v1 parent .objectValue d4 t3
+  else .fall v1 parent .keyValueSeparator d3 t2
+
+def i32KeyFastV (v : VecS) (parent : Nat) (d : Bytes) : FPV :=
+  FPV.withParse (parseV parseI32 v d) fun v1 d2 =>
+  FPV.withId d2 fun t2 d3 =>
+  if t2 = L.equal then
+    FPV.withId d3 fun t3 d4 =>
+    if t3 = L.i32 then
+      FPV.withParse (parseV parseI32 v1 d4) fun v2 data => .cont ⟨v2, parent, .key, data⟩
+    else .fall v1 parent .objectValue d4 t3
+  else .fall v1 parent .keyValueSeparator d3 t2
+
+def keyFastV (fuel : Nat) (v : VecS) (parent : Nat) (d : Bytes) (tok : Nat) : FPV :=
+  if tok > L.unquoted ∨ tok = 0xb then
+    if tok ≠ L.f64 ∧ tok ≠ L.u64 ∧ tok ≠ L.i64 then
+      tokenKeyFastV fuel (v.push (.token tok)) parent d
+    else .fall v parent .key d tok
+  else if tok = L.close then
+    match pushEndV v parent with
+    | .error e => .err e
+    | .ok (v', parent', state') => .cont ⟨v', parent', state', d⟩
+  else if tok = L.quoted then quotedKeyFastV v parent d
+  else if tok = L.i32 then i32KeyFastV v parent d
+  else .fall v parent .key d tok
+
+inductive IterV where
+  | done
+  | next (st : StV)
+  | err (e : Err)
+
+def IterV.ofExcept : Except Err StV → IterV
+  | .ok st => .next st
+  | .error e => .err e
+
+def iterV (opt : Bool) (fuel : Nat) (st : StV) : IterV :=
+  match readId st.data with
+  | none => .done
+  | some (tok, d) =>
+    if opt ∧ st.state = .key then
+      match keyFastV fuel st.vec st.parent d tok with
+      | .cont st' => .next st'
+      | .err e => .err e
+      | .fall v parent state d' tok' => IterV.ofExcept (dispatchV opt fuel v parent state d' tok')
+    else IterV.ofExcept (dispatchV opt fuel st.vec st.parent st.state d tok)
+
+def runV (opt : Bool) (fuel : Nat) : Nat → StV → Except Err Tape
+  | 0, _ => .error .fuel
+  | n + 1, st =>
+    match iterV opt fuel st with
+    | .done => finish st.toSt
+    | .err e => .error e
+    | .next st' => runV opt fuel n st'
+
+/-- `BinaryTapeParser::parse_slice_into_tape(data, &mut tape)` on a tape that was used before
+(tape.rs:95-115): `clear()`, the raw write of `Equal` into slot 0, then the loop over the vector
+itself — stale tokens of the previous parse lie behind its length. -/
 def parseInto (opt : Bool) (prev : VecS) (data : Bytes) : Except Err Tape :=
-  run opt (data.length + 1) (data.length + 1) ⟨((prev.clear).rawWrite 0 .equal).view, 0, .key, data⟩
+  runV opt (data.length + 1) (data.length + 1) ⟨(prev.clear).rawWrite 0 .equal, 0, .key, data⟩
 
 end Jomini.BinTape
